@@ -826,6 +826,9 @@ func corpus() []fixed {
 		// the breaker trips between two pages of one listing: page 2 must be rejected, nothing sent, listing fails with ErrOpenState
 		{google, script{Table: big}, []event{B(L("big", 0)), B(K("u", "down")), A(1), B(K("u", "down")), A(1), B(K("u", "down")), A(1),
 			B(K("u", "ok")), A(0), T(61), B(K("u", "ok")), A(0)}, "trip-between-pages"},
+		// ... and between the HasMember requests for two groups of one CheckMemberships
+		{google, script{Table: big}, []event{B(K("u", "ok", "ok", "ok")), B(K("u", "down")), A(1), B(K("u", "down")), A(1), B(K("u", "down")), A(1),
+			A(0), T(61), B(K("u", "ok", "down", "ok")), A(0), A(0), B(K("u", "ok"))}, "trip-between-groups-of-a-check"},
 		// half-open: page 1 succeeds, page 2 fails: any failure re-opens, the next check is rejected
 		{google, script{Table: bigP2Fails}, []event{B(K("u", "down")), A(0), B(K("u", "down")), A(0), B(K("u", "down")), A(0), T(61),
 			B(L("big", 0)), A(0), A(0), B(K("u", "ok")), T(61), B(K("u", "ok")), A(0)}, "failed-follow-up-page-reopens"},
@@ -841,6 +844,10 @@ func corpus() []fixed {
 		{google, script{Table: errs}, []event{B(L("e400", 0)), A(0), B(L("in", 0)), A(0), B(L("e429", 0)), A(0), B(K("u", "in", "missing", "out", "in")), A(0), A(0), A(0), A(0),
 			B(L("e403", 0)), A(0), B(L("e503", 0)), A(0), B(K("u", "in")), A(0), B(L("ebad", 0)), A(0), B(K("u", "e400")), A(0), B(K("u")),
 			B(K("u", "in", "e403", "in")), A(0), A(0), B(K("u", "ebad")), A(0), B(L("missing", 0)), A(0), B(L("missing", 0))}, "error-mapping"},
+		// a nested group that cannot be listed (404, 503, rejected by the open breaker) fails the WHOLE listing with that error
+		{small, script{Table: []tableEnt{page("par", "", "", member{"x", 0}, member{"gone", 1}, member{"y", 0}),
+			page("par2", "", "", member{"x", 0}, member{"sick", 1}, member{"y", 0}), fails(request{0, "sick", ""}, 503)}},
+			[]event{B(L("par", 1)), A(0), A(0), B(L("par", 0)), A(0), B(L("par2", 1)), A(0), A(0), B(L("par2", 2)), T(9), B(L("par2", 1)), A(0), A(0), B(L("par", 0)), A(0)}, "nested-group-fails"},
 		// faults by arrival index: the same request answered differently the second time
 		{small, script{Faults: []faultEnt{{1, answer{Kind: aErr, Code: 500}}, {2, answer{Kind: aErr, Code: 503}}}, Table: big},
 			[]event{B(L("big", 0)), A(0), A(0), B(L("big", 0)), A(0), B(L("big", 0)), T(6), B(L("big", 0)), A(0), A(0)}, "faults-by-arrival"},
